@@ -42,7 +42,8 @@ import (
 // on ONE API simulation: cron controller (real InformerWorker + CronWorker + Reconciler),
 // job-queue controller (both reconcilers + the real activejobstore.Store), job controller,
 // jobconfig controller, and the four real admission webhooks on every create/update of Jobs
-// and JobConfigs.  Every reconciler runs under the REAL reconciler.Controller retry loop, stepped
+// and JobConfigs (the webhooks are a process of their own: sysWorld.hookCtx, with a JobConfig
+// informer fed from the same watch stream through its own cursor).  Every reconciler runs under the REAL reconciler.Controller retry loop, stepped
 // with VerifStep on injected deterministic work queues; no goroutines of our own.
 //
 // A world is driven by a deterministic scheduler.  A workload is a list of *stimuli* (clock
@@ -125,6 +126,19 @@ type sysWorld struct {
 	clk *fakeclock.FakeClock
 	api *sim.SimAPI
 
+	// the admission webhooks run in ANOTHER process (cmd/execution-webhook) with their own
+	// JobConfig informer: hookCtx is that process' context; its JobConfig cache is fed from the
+	// same watch stream as the controllers' (SimAPI.Mirror) through its own cursor.
+	//   hookFree = false (default): the webhook's cursor moves in lock-step with the controllers'
+	//     JobConfig informer (every deliverOne("jobconfigs") delivers to both): the webhooks see
+	//     exactly what the controllers' cache holds, as when they shared one cache.
+	//   hookFree = true: deliveries to the webhook's cache are scheduler actions of their own
+	//     (deliverHook); a barrier catches the webhook up unless hookHold (its watch is stalled).
+	hookCtx         *sim.Context
+	hookFree        bool
+	hookHold        bool
+	hookLagRefusals int // admissions refused while the webhook's copy of the owner differed from the server's
+
 	ctrls      []*sysCtrl
 	byName     map[string]*sysCtrl
 	cronCtx    *croncontroller.Context
@@ -184,11 +198,16 @@ func newSysWorld(c *Ctx, wl *sysWorkload, label string, plan *sysFaultPlan, emit
 	w.jobsCfg, _ = w.ctx.Configs().Jobs()
 	w.mon = newSysMonitors(w)
 
-	// webhooks (share the JobConfig informer cache, like the real webhook server)
-	w.hookJobMut, _ = jobmutatingwebhook.NewWebhook(w.ctx)
-	w.hookJobVal, _ = jobvalidatingwebhook.NewWebhook(w.ctx)
-	w.hookJCMut, _ = jobconfigmutatingwebhook.NewWebhook(w.ctx)
-	w.hookJCVal, _ = jobconfigvalidatingwebhook.NewWebhook(w.ctx)
+	// webhooks: a process of their own (own informers, same dynamic configuration)
+	w.hookCtx = sim.NewContext()
+	w.hookCtx.MockConfigs().SetConfigs(map[configv1alpha1.ConfigName]runtime.Object{
+		configv1alpha1.JobExecutionConfigName: w.jobsCfg.DeepCopy(),
+	})
+	w.api.MirrorOn["jobconfigs"] = true
+	w.hookJobMut, _ = jobmutatingwebhook.NewWebhook(w.hookCtx)
+	w.hookJobVal, _ = jobvalidatingwebhook.NewWebhook(w.hookCtx)
+	w.hookJCMut, _ = jobconfigmutatingwebhook.NewWebhook(w.hookCtx)
+	w.hookJCVal, _ = jobconfigvalidatingwebhook.NewWebhook(w.hookCtx)
 	w.api.Admit = w.admit
 	w.api.Fault = w.fault
 	w.api.Observe = w.mon.observe
@@ -294,8 +313,23 @@ func (w *sysWorld) admit(resource, verb string, old, obj runtime.Object) (runtim
 	if resource == "jobconfigs" {
 		mut, val = w.hookJCMut, w.hookJCVal
 	}
+	if len(w.api.Mirror["jobconfigs"]) > 0 {
+		w.c.Count("sys.hook.admit-with-backlog")
+	}
 	refuse := func(resp *admissionv1.AdmissionResponse) error {
 		w.admitErrs++
+		if resource == "jobs" {
+			switch w.hookBehindFor(obj) {
+			case "incarnation":
+				// outside E-WebhookCacheFresh: the webhook judged the Job without its JobConfig, or
+				// against another incarnation of it (known finding F34 when the refusal is final)
+				w.hookLagRefusals++
+				w.c.Count("sys.envelope.outside-E-WebhookCacheFresh")
+				w.tr("  admission refused while the webhook's JobConfig cache lags")
+			case "version":
+				w.c.Count("sys.hook.refused-with-older-version-of-jobconfig")
+			}
+		}
 		if resp.Result != nil {
 			return &kerrors.StatusError{ErrStatus: *resp.Result}
 		}
@@ -480,8 +514,56 @@ func (w *sysWorld) afterAction() {
 	w.digests = append(w.digests, w.cheapDigest())
 }
 
+// hookBehindFor compares the webhook's cached copy of the JobConfig the Job refers to
+// (spec.configName or controller owner reference) with the server's: "incarnation" = present on
+// one side only, or another UID; "version" = same object, another resourceVersion; "" = same.
+func (w *sysWorld) hookBehindFor(obj runtime.Object) string {
+	j, ok := obj.(*execution.Job)
+	if !ok {
+		return ""
+	}
+	name := j.Spec.ConfigName
+	if ref := metav1.GetControllerOf(j); ref != nil && ref.Kind == execution.KindJobConfig {
+		name = ref.Name
+	}
+	if name == "" {
+		return ""
+	}
+	truth := w.api.Get("jobconfigs", j.Namespace+"/"+name)
+	cached, has := w.hookCtx.Sim().JobConfigs().CacheGet(&execution.JobConfig{ObjectMeta: metav1.ObjectMeta{Namespace: j.Namespace, Name: name}})
+	if truth == nil || !has {
+		if (truth == nil) != !has {
+			return "incarnation"
+		}
+		return ""
+	}
+	t, c := truth.(*execution.JobConfig), cached.(*execution.JobConfig)
+	switch {
+	case t.UID != c.UID:
+		return "incarnation"
+	case t.ResourceVersion != c.ResourceVersion:
+		return "version"
+	}
+	return ""
+}
+
+// deliverHook applies the next JobConfig watch event to the webhook process' cache.
+func (w *sysWorld) deliverHook() bool {
+	ok := w.api.DeliverOneMirror("jobconfigs", w.hookCtx.Sim().JobConfigs())
+	if ok {
+		w.c.Count("sys.act.deliver.hook-jobconfigs")
+		if w.hookFree {
+			w.afterAction()
+		}
+	}
+	return ok
+}
+
 func (w *sysWorld) deliverOne(res string) bool {
 	ok := w.api.DeliverOne(res, w.informer(res))
+	if ok && res == "jobconfigs" && !w.hookFree {
+		w.deliverHook() // lock-step: the webhooks see what the controllers' cache holds
+	}
 	if ok {
 		w.c.Count("sys.act.deliver." + res)
 		w.afterAction()
@@ -575,6 +657,10 @@ func (w *sysWorld) step(ct *sysCtrl) bool {
 // single controller steps, cron ticks at the current clock).
 func (w *sysWorld) chaos(rng *rand.Rand, n int) {
 	for i := 0; i < n; i++ {
+		if w.hookFree && !w.hookHold && rng.Intn(8) == 0 {
+			w.deliverHook()
+			continue
+		}
 		switch r := rng.Intn(100); {
 		case r < 28:
 			w.deliverOne([]string{"jobs", "jobs", "pods", "jobconfigs"}[rng.Intn(4)])
@@ -598,6 +684,11 @@ func (w *sysWorld) drainOnce() bool {
 		p := false
 		for _, res := range []string{"jobconfigs", "jobs", "pods"} {
 			for w.deliverOne(res) {
+				p = true
+			}
+		}
+		if w.hookFree && !w.hookHold {
+			for w.deliverHook() {
 				p = true
 			}
 		}
